@@ -75,13 +75,15 @@ func harnessC03PersistPairs() {
 	c03Pair(ops)
 }
 
-//verif:entry property=C03 tier=both bounds="every pair of concurrent operations out of {RegisterUpcastFunc, ReplayWithUpcast, ClearUpcasts, ClearUpcastsForType} on a persistent bus with one stored event and one registered upcaster" cover="pair-done" preempt_quick=2 preempt_thorough=3 race=on
+//verif:entry property=C03 tier=both bounds="every pair of concurrent operations out of {RegisterUpcastFunc, ReplayWithUpcast, ClearUpcasts, ClearUpcastsForType} on a persistent bus with two stored events, one raw and one typed upcaster" cover="pair-done" preempt_quick=2 preempt_thorough=3 race=on
 func harnessC03UpcastPairs() {
 	ctx := context.Background()
 	st := NewMemoryStore()
 	bus := New(WithStore(st))
 	st.Append(ctx, &Event{Type: "A", Data: json.RawMessage(`{}`)})
+	st.Append(ctx, &Event{Type: "eventbus.evA", Data: json.RawMessage(`{"n":1}`)})
 	RegisterUpcastFunc(bus, "A", "B", func(d json.RawMessage) (json.RawMessage, string, error) { return d, "B", nil })
+	RegisterUpcast(bus, func(a evA) evV2 { return evV2{N: a.N, V: 2} }) // a typed upcaster runs inside the registry's read lock
 	ops := []func(){
 		func() {
 			RegisterUpcastFunc(bus, "B", "C", func(d json.RawMessage) (json.RawMessage, string, error) { return d, "C", nil })
@@ -93,10 +95,10 @@ func harnessC03UpcastPairs() {
 	c03Pair(ops)
 }
 
-//verif:entry property=C03 tier=both bounds="re-entrancy: one call back into the same bus (publish other type, publish same type from a non-sequential handler, subscribe, unsubscribe, clear, clear-all, HasHandlers, HandlerCount) issued from inside a handler, a filter, a before-publish hook or an after-publish hook; Sequential handler flag symbolic (self-delivery excluded as in the statement)" cover="reentrant-done"
+//verif:entry property=C03 tier=both bounds="re-entrancy: one call back into the same bus (publish other type, publish same type from a non-sequential handler, subscribe, unsubscribe, clear, clear-all, HasHandlers, HandlerCount, or a panic of the handler) issued from inside a handler, a filter, a before-publish hook or an after-publish hook; Sequential handler flag symbolic (self-delivery excluded as in the statement)" cover="reentrant-done"
 func harnessC03Reentrant() {
 	where := vPick(4) // 0 handler, 1 filter, 2 before hook, 3 after hook
-	what := vPick(8)
+	what := vPick(9)
 	sequential := vBool()
 	var bus *EventBus
 	depth := 0
@@ -126,6 +128,10 @@ func harnessC03Reentrant() {
 			_ = HasHandlers[evA](bus)
 		case 7:
 			_ = HandlerCount[evA](bus)
+		case 8:
+			// the handler gives up with a panic (recovered by the bus); only meaningful inside a handler
+			vAssume(where == 0)
+			panic("handler gives up")
 		}
 	}
 	var opts []Option
